@@ -13,7 +13,9 @@ RULE = ("constructors mk_dnf / mk_cnf: EVERY clause list with <=3 clauses over <
         "Bdds over 4..9 variables (+ valid non-canonical arrays for to_dnf/to_cnf): to_dnf()/to_cnf() lists == the model's lists in order; and for "
         "to_dnf, to_cnf, to_optimized_dnf the program rebuilds with mk_dnf/mk_cnf from the implementation's own list: the PROVED model constructor applied "
         "to the implementation's list must give exactly b (run-time check, sound by C10_optimized_dnf_checked), the implementation's rebuilt Bdd must be "
-        "the array b and `==` must say so. Independent truth-table oracle on EVERY step with nv<=10 (disjunction/conjunction of the clauses == raw truth "
+        "the array b and `==` must say so. to_optimized_dnf is also run in the step-faithful model (Model/OptDnf.v, proved to round-trip: "
+        "C10_optimized_dnf_roundtrip); its list is compared with the implementation's as evidence only (opt_dnf_list_vs_model:agree/differ): a different "
+        "but valid list is not a violation, a difference is reported only together with a failing validator. Independent truth-table oracle on EVERY step with nv<=10 (disjunction/conjunction of the clauses == raw truth "
         "table). non-trivial = constructor: >=2 clauses and result >=3 nodes (single clause: >=2 literals); extraction/rebuild: b has >=3 nodes; distinct by sha256")
 EXHAUSTIVE = {"quick": False, "thorough": False}
 MAXO = 10
@@ -226,8 +228,7 @@ def judge(st, V):
         nv = b[0][0]
         V.count("nv:%s" % (nv if nv <= 10 else "11+"))
         V.count("operand:" + ("canonical" if is_canonical(b)[0] else "non-canonical"))
-        if op != "to_opt_dnf":
-            machinery_guard(st)
+        machinery_guard(st)
         sample(V, st)
         if impl == "PANIC" or not isinstance(impl, list):
             V.violations.append(violation(PID, st, op + " panicked on a valid diagram", confirmed=True,
@@ -243,7 +244,22 @@ def judge(st, V):
             if tt != want:
                 i = [k for k in range(1 << nv) if tt[k] != want[k]][0]
                 bad = {"problem": "the normal form denotes a different function", "valuation": vbits(val_of_index(i, nv)), "bdd": want[i], "normal_form": tt[i]}
+        if op == "to_opt_dnf":
+            # Additional evidence, NOT the relation: the implementation's list against the list of the step-faithful model
+            # (Model/OptDnf.v).  A different but valid list is no violation (the property only demands that rebuilding returns
+            # b: the rebuild step that follows, plus the truth-table oracle above); a difference is only remembered so that a
+            # failing validator can report it.  The model itself is proved never to panic / run out of fuel on a canonical
+            # operand (C10_optimized_dnf_sem), so such an answer is a machinery error.
+            if is_canonical(b)[0] and not isinstance(model, list):
+                raise RuntimeError("model to_optimized_dnf did not return a list on a canonical operand (step %s): %s" % (cid, sx_str(model)[:200]))
+            agree = impl == model
+            V.count("opt_dnf_list_vs_model:" + ("agree" if agree else "differ"))
+            if len(b) >= 3:
+                V.count("opt_dnf_list_vs_model_nontrivial:" + ("agree" if agree else "differ"))
+            _cur["opt_differs"] = (int(cid), sx_str(model)[:2000]) if not agree else None
         if bad is not None or (op != "to_opt_dnf" and impl != model):
+            if bad is not None and op == "to_opt_dnf" and _cur.get("opt_differs"):
+                bad["model_list"] = _cur["opt_differs"][1]
             V.violations.append(violation(PID, st, op + ": " + (bad["problem"] if bad else "clause list differs from the model's (semantic oracle passed)"),
                                           oracle=bad, confirmed=bad is not None, relation="list exact (to_dnf/to_cnf) + truth-table oracle"))
             return
@@ -302,6 +318,9 @@ def judge(st, V):
                 bad, conf = {"problem": "rebuilding from %s does not return a Bdd equal to the original" % rebuilt_from}, True
         elif nv <= MAXO and is_bdd(model) and raw_tt(bdd_nodes(model)) != raw_tt(b):
             bad, conf = {"problem": "model mk_*(clauses yielded by %s) denotes another function than the (non-canonical) original" % rebuilt_from}, True
+    if isinstance(bad, dict) and rebuilt_from == "to_opt_dnf" and _cur.get("opt_differs") and _cur["opt_differs"][0] + 1 == int(cid):
+        bad["to_optimized_dnf_model_list"] = _cur["opt_differs"][1]      # the validator failed AND the list is not the model's
+        V.count("opt_dnf_list_vs_model:differ_and_validator_failed")
     if bad is not None or impl != model:
         viol = violation(PID, st, op + ": " + (str(bad.get("problem", "the result denotes another function than the clauses (truth-table oracle)")) if isinstance(bad, dict) else "oracle: %s" % bad if bad else "array differs from the model's canonical array"),
                                       oracle=bad, confirmed=conf, relation="array exact + truth-table oracle" + ("; rebuild == original" if rebuilt_from else ""))
